@@ -368,6 +368,8 @@ func (e dispatcherCompleteEvent) apply(s *state) {
 	for _, errc := range ctrl.errors {
 		errc <- nil
 	}
+	// Every waiter has its answer; never send to a waiter twice.
+	ctrl.errors = nil
 	if ctrl.localRequest {
 		downloadTime := s.sched.clock.Now().Sub(ctrl.dispatcher.CreatedAt())
 		observability.EmitDownloadPerformance(s.sched.stats, observability.TORRENT_LEECH, ctrl.dispatcher.Length(), downloadTime)
